@@ -19,6 +19,7 @@ import (
 	orbitertypes "github.com/noble-assets/orbiter/v2/types"
 	actiontypes "github.com/noble-assets/orbiter/v2/types/controller/action"
 	forwardingtypes "github.com/noble-assets/orbiter/v2/types/controller/forwarding"
+	hyputil "github.com/bcp-innovations/hyperlane-cosmos/util"
 	"github.com/noble-assets/orbiter/v2/types/core"
 )
 
@@ -46,6 +47,8 @@ type Profile struct {
 	EmptyFeeP    float64  // probability of a fee action with an empty list
 	InitLimitP   float64  // probability that the run starts by raising the passthrough limit
 	ModeBEvery   int      // k>0: every k-th run uses the interposed (mode B) node
+	SimP         float64  // probability that a block's transactions are first simulated on the node (gas estimation; discarded)
+	GhostTokenP  float64  // per step: probability of starting the "token created only in a simulation" scenario
 	InjectP      float64  // mode-B runs: probability that a lone delivery gets an injected downstream failure
 	Replays      int      // C19: extra replays of each trace
 	// evidence / packaging
@@ -73,6 +76,7 @@ type genState struct {
 	scaleW   []int
 	gasCutP  float64
 	started  bool
+	script   []func(s *Sim) (Op, bool) // a drawn multi-step scenario in progress: its remaining steps come first
 	noIGP    bool // scenario generators that need a known-good destination avoid the fee-charging Hyperlane token
 }
 
@@ -1219,6 +1223,16 @@ func (g *genState) Next(s *Sim) Op {
 			return Op{ID: g.id(), K: "admin", Msg: "UpdateParams", N: uint64([]int{16, 64, 1000}[r.Intn(3)])}
 		}
 	}
+	for len(g.script) > 0 && !r.Bool(0.2) {
+		f := g.script[0]
+		g.script = g.script[1:]
+		if op, ok := f(s); ok {
+			return op
+		}
+	}
+	if r.Bool(g.prof.GhostTokenP) && g.ghostTokenScript(s) {
+		return g.Next(s)
+	}
 	kinds := sortedKeys(g.w)
 	for tries := 0; tries < 20; tries++ {
 		var ws []int
@@ -1261,6 +1275,9 @@ func (g *genState) Next(s *Sim) Op {
 			if len(s.Mempool) > 1 && r.Intn(3) == 0 {
 				op.Perm = r.U64() | 1
 			}
+			if len(s.Mempool) > 0 && r.Bool(g.prof.SimP) {
+				op.Sim = r.U64() | 1<<uint(r.Intn(len(s.Mempool)))
+			}
 			if s.ModeB != nil && len(s.Mempool) == 1 && r.Bool(g.prof.InjectP) {
 				op.Inject = fmt.Sprintf("%d:%d", r.Intn(14), 1+r.Intn(2))
 			}
@@ -1288,4 +1305,84 @@ func (g *genState) genImpostor(s *Sim) Op {
 	signers := []string{"impostor", "noble1", "circle", "hypowner", "relayer0", "depositor"}
 	op.Signer = signers[r.Intn(len(signers))]
 	return op
+}
+
+// ghostTokenScript queues a scenario around a Hyperlane token that exists only in a discarded
+// execution: a transfer names the identifier the *next* token will get; a transaction that would create
+// that token for the transfer's denomination, enrol its routers and deliver the transfer is simulated
+// on the node (as a client estimating gas does) and never broadcast; then the identifier is really
+// taken by a token for another denomination, somebody deposits that denomination on the orbiter
+// account, and the transfer is delivered. Ordinary random ops interleave between the steps.
+func (g *genState) ghostTokenScript(s *Sim) bool {
+	r := g.r
+	denom := []string{DenomUSDC, DenomOther}[r.Intn(2)]
+	other := map[string]string{DenomUSDC: DenomOther, DenomOther: DenomUSDC}[denom]
+	if r.Intn(4) == 0 {
+		other = denom // the identifier is taken by a token of the same denomination: a plain new route
+	}
+	pair, user := r.Intn(NumPairs), r.Intn(NumRemote)
+	bal := s.Ledger.Get(s.Env.Remote[pair][user].Addr.String(), voucherOnB(pair, denom)).BigInt()
+	A := g.genAmount(denom, nil)
+	if A.Cmp(big.NewInt(1_000_000_000)) > 0 {
+		A = big.NewInt(1 + int64(r.Intn(1_000_000)))
+	}
+	if bal.Cmp(A) < 0 {
+		return false
+	}
+	sendID := -1
+	g.script = append(g.script,
+		func(s *Sim) (Op, bool) { return Op{ID: g.id(), K: "block", Dt: 5}, len(s.Mempool) > 0 || s.dirtyState },
+		func(s *Sim) (Op, bool) {
+			id, ok := s.predictTokenID(denom)
+			if !ok {
+				g.script = nil
+				return Op{}, false
+			}
+			tok, err := hyputil.DecodeHexAddress(id)
+			if err != nil {
+				g.script = nil
+				return Op{}, false
+			}
+			p := &MPayload{Proto: "PROTOCOL_HYPERLANE", Token: tok.Bytes(), Domain: HypDomains[r.Intn(len(HypDomains))], Recipient32: g.rcptBytes(), GasLimit: "0", MaxFeeDenom: denom, MaxFeeAmt: "0", PTNull: true}
+			if r.Intn(3) == 0 {
+				p.HasFee, p.Fees = g.genFees(s, A)
+			}
+			op := Op{ID: g.id(), K: "send", Pair: pair, User: user, Denom: denom, Amt: A.String(), Recv: s.Env.Orbiter.String(), Memo: p.Canonical(), Class: "free:newtoken"}
+			sendID = op.ID
+			return op, true
+		},
+		func(s *Sim) (Op, bool) { return Op{ID: g.id(), K: "block", Dt: 5}, true },
+		func(s *Sim) (Op, bool) {
+			if r.Intn(6) == 0 {
+				return Op{}, false // no ghost: the plain history
+			}
+			return Op{ID: g.id(), K: "hyptoken", Denom: denom, Ghost: true, Ref: sendID}, true
+		},
+		func(s *Sim) (Op, bool) {
+			if r.Intn(8) == 0 {
+				return Op{}, false // the identifier stays free
+			}
+			return Op{ID: g.id(), K: "hyptoken", Denom: other}, true
+		},
+		func(s *Sim) (Op, bool) {
+			if r.Intn(5) == 0 {
+				return Op{}, false
+			}
+			amt := new(big.Int).Add(A, big.NewInt(int64(r.Intn(3))-1))
+			if amt.Sign() <= 0 {
+				amt = big.NewInt(1)
+			}
+			return Op{ID: g.id(), K: "dust", Denom: other, Amt: amt.String()}, true
+		},
+		func(s *Sim) (Op, bool) { return Op{ID: g.id(), K: "block", Dt: 5}, true },
+		func(s *Sim) (Op, bool) {
+			if p := s.byOrigin[sendID]; p == nil || p.State != PktInFlight {
+				return Op{}, false
+			}
+			return Op{ID: g.id(), K: "deliver", Ref: sendID, Rel: r.Intn(NumRelayers - 2)}, true
+		},
+		func(s *Sim) (Op, bool) { return Op{ID: g.id(), K: "block", Dt: 5}, true },
+	)
+	s.Stats.Probe("ghost_token_scenario")
+	return true
 }
